@@ -499,7 +499,7 @@ fn tfk_uf(k: &[u8; 32], salt: Option<&[u8]>) -> Id {
 //@ mem: 24
 //@ unwindset_raw: memcmp.0:22
 //@ standins: tracing lru vcoll
-//@ also: C09 C18
+//@ also: C18
 //@ desc: get_immutable glue: for an in-flight lookup of target t, a get_immutable response (right or wrong tid, read-only or not, value authentic or not) is surfaced AND recorded in the lookup (one IterativeQuery::response call, with that value) only if hash(v) = t, the tid belongs to the lookup and the reply is not read-only; a value whose hash differs is neither surfaced nor recorded (not even for later joiners of the same lookup); a read-only or foreign reply changes nothing and teaches the routing table nothing; an accepted reply's token makes the responder a storage candidate
 //@ bounds: one lookup with one tracked tid, one response; v 1 symbolic byte; target = H(v) or another id (H uninterpreted, bound to SHA-1 by C02.O3); symbolic tid match and read_only bits; no closer nodes in the reply; unwind 5, memcmp 22
 //@ stubs: hash_immutable -> H; IterativeQuery::{response, add_candidate, add_responding_node} -> recording probes (their own behaviour: C07.O1-O3, C11); from_dht_message / from_dht_response -> flagged cuts (other kinds); RoutingTable::add -> probe counting calls; Instant::now; getrandom::fill
@@ -829,7 +829,7 @@ fn c02_o4s_signed_peers_glue_probed() {
 //@ mem: 40
 //@ unwindset_raw: memcmp.0:22
 //@ standins: tracing lru vcoll
-//@ also: C08 C09
+//@ also: C08
 //@ desc: every expected reply's referral is offered to the lookup: for a reply matching an in-flight request of a get_peers lookup -- a get_peers reply with values, a no-values reply or a find_node reply, each carrying one closer node -- IterativeQuery::add_candidate is called once with that node (also when the reply carried values and was surfaced), and a reply with a token makes the responder a storage candidate carrying a token; a reply whose tid belongs to no lookup, or a read-only reply, offers nothing
 //@ bounds: one lookup with one tracked tid; reply kind fixed per call (three kinds in one harness, symbolic choice); one referral node (concrete id 0x44.., private IP); tid matching or not, read-only or not (symbolic); unwind 4, memcmp 22
 //@ stubs: IterativeQuery::{response, add_candidate, add_responding_node} -> recording probes (what the lookup does with candidates: C07.O1-O3, C11.O1-O2); RoutingTable::add -> probe; other kinds' validators -> flagged cuts; Instant::now; getrandom::fill
